@@ -73,6 +73,7 @@ def real_session(data, members, chain, raw_mode, tmp, password=None):
         z = py7zr.SevenZipFile(bio, "a", filters=arch.CHAINS[chain], password=password)
     except Exception as e:  # noqa
         out["exc"] = ("open", type(e).__name__, str(e)[:120])
+        out["data"] = bio.getvalue()
         return out
     out["opened"] = True
     H = z.header
@@ -81,7 +82,6 @@ def real_session(data, members, chain, raw_mode, tmp, password=None):
         out["tell"] = bio.tell()
         out["afterheader"] = z.afterheader
         out["graph_open"] = hdr.header_tree(H)
-        out["fresh"] = not hasattr(z, "sig_header") or H.main_streams is None and H.files_info is None and len(data) > 32 and False
         if raw_mode:
             z.set_encoded_header_mode(False)
         for kind, nm, d in members:
@@ -149,7 +149,9 @@ def compare_case(ctx, rep, key, data, members, chain, raw_mode, tmp, what, passw
     res = real_session(data, members, chain, raw_mode, tmp, password)
     rep.count(key, nontrivial=bool(members))
     rep.dist("model_base", what)
-    rep.dist("model_session", "%d members, %s, %s header" % (len(members), chain, "raw" if raw_mode else "encoded"))
+    rep.dist("model_session_members", len(members))
+    rep.dist("model_session_chain", chain)
+    rep.dist("model_session_header", "raw" if raw_mode else "encoded")
 
     def disagree(msg, extra=None):
         rep.violation("Append.v and py7zr disagree: %s [%s; features %s]" % (msg, what, feats),
@@ -159,19 +161,24 @@ def compare_case(ctx, rep, key, data, members, chain, raw_mode, tmp, what, passw
 
     # ---- base graph as the model sees it
     if base_raw is not None:
-        mp = m_res(M.call("parse_header", [hdr.LIM, list(base_raw)]))
-        if mp[0] == "err" and mp[1] == "Bad7z":
-            # "Not an existing 7zip file, write instead": the session starts a NEW archive over the old one
-            if res["opened"] and res.get("pos") == 32 and res["graph_open"] == [[], [], []]:
-                rep.dist("model_open", "Bad7z -> fresh archive (model and implementation)")
-                return "fresh"
-            disagree("model parse says Bad7z (fresh archive) but the implementation did not start a fresh archive: %r" % (res["exc"],))
-            return None
+        mp = m_res(M.call("open_for_append", [hdr.LIM, CONTENTS, list(base_raw)]))
         if mp[0] == "err":
+            # an existing 7z file whose header cannot be read: the exception is passed on, nothing is written
             if res["opened"]:
-                disagree("model cannot parse the base header (%s) but the implementation opened it" % mp[1])
+                fresh = res.get("pos") == 32 and res["graph_open"] == [[], [], []]
+                if fresh and spec_names(ctx, base_raw):
+                    rep.violation("mode 'a' on a valid archive whose header py7zr rejects (%s) starts a NEW archive over it: the "
+                                  "existing members are dropped without an error [%s]" % (mp[1], feats),
+                                  {"kind": "append-replaces-archive", "base": data.hex()[:100000]},
+                                  match_keys={"kind": "append-replaces-archive", "base_features": feats})
+                else:
+                    disagree("model cannot read the base header (%s) but the implementation opened it" % mp[1])
+            elif res["data"] != data:
+                rep.violation("opening an unreadable archive for append failed (%r) but modified the file [%s]" % (res["exc"], feats),
+                              {"kind": "append-open-modifies", "base": data.hex()[:100000]},
+                              match_keys={"kind": "append-open-modifies", "base_features": feats})
             else:
-                rep.dist("model_open", "both refuse the base")
+                rep.dist("model_open", "both refuse the base, file untouched (%s)" % mp[1])
             return None
         base_parsed = mp[1]
     else:
@@ -192,9 +199,9 @@ def compare_case(ctx, rep, key, data, members, chain, raw_mode, tmp, what, passw
         return None
     g_open = res["graph_open"]
     if base_parsed is not None:
-        want = M.call("open_names", [CONTENTS, base_parsed])
+        want = base_parsed
         if want != g_open:
-            disagree("graph after opening differs from open_names(parse_header)", {"model": repr(want)[:2000], "impl": repr(g_open)[:2000]})
+            disagree("graph after opening differs from open_for_append", {"model": repr(want)[:2000], "impl": repr(g_open)[:2000]})
             return None
     # ---- position
     ap = m_res(M.call("append_position", [g_open, res["afterheader"]]))
@@ -375,15 +382,8 @@ def graph_case(ctx, rep, rng, idx):
     members = gen_members(rng, set(), idx)
     tmp = tempfile.mkdtemp(prefix="c08m_")
     try:
-        r = compare_case(ctx, rep, ("c08model", "graph", idx), data, members, rng.choice(["copy", "copy", "deflate", "lzma2"]),
+        compare_case(ctx, rep, ("c08model", "graph", idx), data, members, rng.choice(["copy", "copy", "deflate", "lzma2"]),
                          rng.random() < 0.6, tmp, "generated graph", base_raw=raw, feats=feats)
-        if r == "fresh":
-            names_before = spec_names(ctx, raw)
-            if names_before:
-                rep.violation("mode 'a' on a valid archive whose header py7zr rejects (Bad7zFile) starts a NEW archive over it: "
-                              "all %d existing members are dropped without an error [%s]" % (len(names_before), feats),
-                              {"kind": "append-replaces-archive", "base": data.hex()[:100000]},
-                              match_keys={"kind": "append-replaces-archive", "base_features": feats})
     finally:
         shutil.rmtree(tmp, ignore_errors=True)
 
